@@ -377,6 +377,30 @@ fn spec_step(st: KState, c: &Call) -> Option<KState> {
     }
 }
 
+/// the effect of a (completed) call on the per-key state, ignoring what it reported
+fn apply_effect(st: KState, c: &Call) -> KState {
+    let res = c.result.split(" | ").next().unwrap_or("");
+    match &c.op {
+        COp::Ins(_, v, o) => KState(Some((*v, *o))),
+        COp::TryIns(_, v, o) => {
+            if res == "none" {
+                KState(Some((*v, *o)))
+            } else {
+                st
+            }
+        }
+        COp::Rm(_) | COp::Rme(_) | COp::CipRm(_) => KState(None),
+        COp::CipInc(_, o) => match res.strip_prefix("some ") {
+            Some(rest) => {
+                let p: u64 = rest.split(' ').next().and_then(|x| x.parse().ok()).unwrap_or(0);
+                KState(Some((p, *o)))
+            }
+            None => st,
+        },
+        _ => st,
+    }
+}
+
 /// Is the history of one key linearizable from `init`, ending in `fin` (if given)?
 /// Returns a witness order (indices into `calls`) if so.
 pub fn linearize(calls: &[Call], init: KState, fin: Option<KState>) -> Option<Vec<usize>> {
@@ -504,6 +528,74 @@ pub fn judge(case: &ConcCase, r: &ConcResult) -> Verdicts {
                 }
             }
         }
+        // C07: weak consistency of every completed iteration
+        for it in r.calls.iter().filter(|c| matches!(c.op, COp::Iter)) {
+            for k in &keys {
+                let mut cs: Vec<&Call> = r.calls.iter().filter(|c| c.op.key() == Some(*k)).collect();
+                cs.sort_by_key(|c| (c.inv, c.tid));
+                let Some(w) = witnesses.get(k) else { continue };
+                if w.len() != cs.len() {
+                    continue;
+                }
+                let mutating = |c: &Call| matches!(c.op, COp::Ins(..) | COp::TryIns(..) | COp::Rm(..) | COp::Rme(..) | COp::CipInc(..) | COp::CipRm(..));
+                let init = KState(case.prefill.iter().rev().find(|e| e.0 == *k).map(|e| (e.1, e.2)));
+                // state after every operation that completed before the iterator was created
+                let mut st = init;
+                let mut touched = false;
+                for &i in w {
+                    let c = cs[i];
+                    if c.resp < it.inv {
+                        st = apply_effect(st, c);
+                    } else if mutating(c) && c.inv <= it.resp {
+                        touched = true;
+                    }
+                }
+                let ys: Vec<&(u32, u64, u32)> = it.yielded.iter().filter(|y| y.0 == *k).collect();
+                if !touched {
+                    match st.0 {
+                        Some((p, o)) => {
+                            if ys.len() != 1 || (ys[0].1, ys[0].2) != (p, o) {
+                                f.push(format!(
+                                    "[iter] key {} was present with value ({}, {}) and untouched for the whole iteration of t{} [{}..{}], but the iterator yielded it {} times: {:?}",
+                                    k, p, o, it.tid, it.inv, it.resp, ys.len(), ys
+                                ));
+                            }
+                        }
+                        None => {
+                            if !ys.is_empty() {
+                                f.push(format!("[iter] key {} was absent and untouched during the iteration of t{} [{}..{}] but was yielded: {:?}", k, it.tid, it.inv, it.resp, ys));
+                            }
+                        }
+                    }
+                } else {
+                    // every yielded pair must have been in the map at some moment of the iteration
+                    for y in ys {
+                        let mut possible = st.0 == Some((y.1, y.2));
+                        for &i in w {
+                            let c = cs[i];
+                            let writes = match &c.op {
+                                COp::Ins(_, v, o) => c.inv <= it.resp && (*v, *o) == (y.1, y.2),
+                                COp::TryIns(_, v, o) => c.inv <= it.resp && c.result.starts_with("none") && (*v, *o) == (y.1, y.2),
+                                COp::CipInc(_, o) => c.inv <= it.resp && *o == y.2,
+                                _ => false,
+                            };
+                            if writes && c.resp >= it.inv {
+                                possible = true;
+                            }
+                        }
+                        if !possible {
+                            f.push(format!("[iter] the iteration of t{} [{}..{}] yielded ({}, {}, {}), which was not in the map at any moment of the iteration", it.tid, it.inv, it.resp, y.0, y.1, y.2));
+                        }
+                    }
+                }
+            }
+            // nothing but keys of the universe
+            for y in &it.yielded {
+                if !keys.contains(&y.0) {
+                    f.push(format!("[iter] the iterator yielded key {} which was never inserted", y.0));
+                }
+            }
+        }
         // len() at quiescence
         if r.len_final != r.final_contents.len() {
             f.push(format!("[quiescent] len() = {} but iteration yields {} entries", r.len_final, r.final_contents.len()));
@@ -533,6 +625,13 @@ pub fn judge(case: &ConcCase, r: &ConcResult) -> Verdicts {
 // generator
 
 pub fn gen_conc(id: usize, seed: u64, tier_big: bool) -> ConcCase {
+    gen_conc_mode(id, seed, tier_big, "mixed")
+}
+
+/// mode: "mixed" (per-key API), "iter" (one or two iterating threads against writers that grow the
+/// table and convert bins), "tree" (all threads work in one crowded bin of a table >= 64), "resize" (several
+/// threads push one table over its threshold together)
+pub fn gen_conc_mode(id: usize, seed: u64, tier_big: bool, mode: &str) -> ConcCase {
     let mut rng = Rng(seed ^ 0xC0C0);
     let classes: &[&'static str] = &["zero", "samebin", "fewbins", "uniform", "ident", "alternate"];
     let class = *rng.pick(classes);
@@ -582,6 +681,79 @@ pub fn gen_conc(id: usize, seed: u64, tier_big: bool) -> ConcCase {
         }
         programs.push(p);
     }
+    let (programs, cap, prefill, hashes, class) = match mode {
+        "iter" => {
+            let hashes = crate::gen::gen_hashes(&mut rng, class, 40);
+            let cap = *rng.pick(&[0usize, 1, 2, 5, 10, 64]);
+            let pre = rng.below(10) as usize;
+            let prefill: Vec<(u32, u64, u32)> = (0..pre).map(|i| ((i + 1) as u32, rng.below(5), fresh())).collect();
+            let mut programs = vec![vec![COp::Iter]];
+            if rng.chance(1, 3) {
+                programs[0].push(COp::Iter);
+            }
+            let writers = 1 + rng.below(2) as usize;
+            for _ in 0..writers {
+                let mut p = vec![];
+                for _ in 0..(2 + rng.below(if tier_big { 10 } else { 6 })) {
+                    let k = 1 + rng.below(24) as u32;
+                    p.push(match rng.below(8) {
+                        0..=3 => COp::Ins(k, rng.below(5), fresh()),
+                        4 => COp::Rm(k),
+                        5 => COp::Reserve(8 + rng.below(60) as usize),
+                        6 => COp::CipInc(k, fresh()),
+                        _ => COp::Ins(10 + rng.below(20) as u32, 1, fresh()),
+                    });
+                }
+                programs.push(p);
+            }
+            (programs, cap, prefill, hashes, class)
+        }
+        "tree" => {
+            // all keys collide; table of 64+ bins; 7..11 keys prefilled so that threads cross the
+            // treeify / untreeify boundaries together
+            let hc = if rng.chance(1, 2) { "zero" } else { "samebin" };
+            let hashes = crate::gen::gen_hashes(&mut rng, hc, 40);
+            let pre = 6 + rng.below(6) as usize;
+            let prefill: Vec<(u32, u64, u32)> = (0..pre).map(|i| ((i + 1) as u32, rng.below(5), fresh())).collect();
+            let mut programs = vec![];
+            for _ in 0..nthreads {
+                let mut p = vec![];
+                for _ in 0..(1 + rng.below(if tier_big { 5 } else { 3 })) {
+                    let k = 1 + rng.below(14) as u32;
+                    p.push(match rng.below(10) {
+                        0..=2 => COp::Ins(k, rng.below(5), fresh()),
+                        3..=5 => COp::Rm(k),
+                        6 => COp::Get(k),
+                        7 => COp::CipInc(k, fresh()),
+                        8 => COp::CipRm(k),
+                        _ => COp::Has(k),
+                    });
+                }
+                programs.push(p);
+            }
+            (programs, 64usize, prefill, hashes, "collide")
+        }
+        "resize" => {
+            // a table right below its threshold; every thread inserts fresh keys
+            let hc = *rng.pick(&["ident", "uniform", "alternate"]);
+            let hashes = crate::gen::gen_hashes(&mut rng, hc, 80);
+            let cap = *rng.pick(&[1usize, 2, 5, 10, 21]);
+            let mut next_key = 1u32;
+            let pre = (cap + cap / 2).min(20);
+            let prefill: Vec<(u32, u64, u32)> = (0..pre).map(|_| { next_key += 1; (next_key, 0, fresh()) }).collect();
+            let mut programs = vec![];
+            for _ in 0..(2 + rng.below(3) as usize) {
+                let mut p = vec![];
+                for _ in 0..(2 + rng.below(4)) {
+                    next_key += 1;
+                    p.push(if rng.chance(1, 6) { COp::Get(2 + rng.below(pre as u64 + 1) as u32) } else if rng.chance(1, 8) { COp::Reserve(rng.below(100) as usize) } else { COp::Ins(next_key, 1, fresh()) });
+                }
+                programs.push(p);
+            }
+            (programs, cap, prefill, hashes, "grow")
+        }
+        _ => (programs, cap, prefill, hashes, class),
+    };
     let policy = match rng.below(4) {
         0 => Policy::Random,
         1 => Policy::Pct { d: 1 + rng.below(3) as usize, horizon: 60 },
